@@ -33,6 +33,9 @@ struct Env {
     /// main context through the generated `<I18nContextProvider>`: its set_dir_attr_on_html / set_lang_attr_on_html
     /// props (they have nothing to do with the locale)
     html_attrs: Option<(bool, bool)>,
+    /// through the entry points that take no options (`init_i18n_context`, `provide_i18n_context`,
+    /// `init_i18n_subcontext`, `provide_i18n_subcontext`): 1 / 2 = the init / the provide form
+    plain_api: u8,
 }
 
 const DEFAULT_COOKIE: &str = "i18n_pref_locale";
@@ -153,6 +156,26 @@ fn opts(e: &Env) -> I18nContextOptions<'static, Locale> {
 fn observe(e: &Env) -> (usize, Option<usize>) {
     with_owner(|| {
         let idx = |l: Locale| NAMES.iter().position(|n| *n == l.as_str()).unwrap();
+        if e.plain_api > 0 {
+            // no request, no options: nothing but the default (main) / initial, parent, default (sub-context)
+            if !e.sub {
+                let ctx: I18nContext<Locale> = if e.plain_api == 1 { leptos_i18n::context::init_i18n_context() } else { leptos_i18n::context::provide_i18n_context() };
+                poll();
+                return (idx(ctx.get_locale_untracked()), None);
+            }
+            if let Some(p) = e.parent {
+                let parent: I18nContext<Locale> = leptos_i18n::context::provide_i18n_context();
+                parent.set_locale(loc(p));
+                poll();
+            }
+            let initial = e.initial.map(|i| Signal::derive(move || loc(i)));
+            let child = Owner::current().unwrap().child();
+            let ctx: I18nContext<Locale> = child.with(|| if e.plain_api == 1 { leptos_i18n::context::init_i18n_subcontext(initial) } else { leptos_i18n::context::provide_i18n_subcontext(initial) });
+            poll();
+            let got = idx(ctx.get_locale_untracked());
+            drop(child);
+            return (got, None);
+        }
         if let (false, Some((dir, lang))) = (e.sub, e.html_attrs) {
             let header = e.cookie_header.clone();
             let accept = e.accept.map(String::from);
@@ -242,10 +265,10 @@ pub fn run(tier: Tier) -> i32 {
             // main context
             for enable in [true, false] {
                 for cn in [None, Some("custom")] {
-                    envs.push(Env { cookie_header: ch.clone(), enable_cookie: enable, cookie_name: cn, accept: *a, parent: None, initial: None, sub: false, sub_cookie_name: None, via_provider: false, sibling: None, html_attrs: None });
+                    envs.push(Env { cookie_header: ch.clone(), enable_cookie: enable, cookie_name: cn, accept: *a, parent: None, initial: None, sub: false, sub_cookie_name: None, via_provider: false, sibling: None, html_attrs: None, plain_api: 0 });
                     // the same through the generated provider component, whose other boolean props must not matter
                     for attrs in [(true, true), (false, true), (true, false), (false, false)] {
-                        envs.push(Env { cookie_header: ch.clone(), enable_cookie: enable, cookie_name: cn, accept: *a, parent: None, initial: None, sub: false, sub_cookie_name: None, via_provider: true, sibling: None, html_attrs: Some(attrs) });
+                        envs.push(Env { cookie_header: ch.clone(), enable_cookie: enable, cookie_name: cn, accept: *a, parent: None, initial: None, sub: false, sub_cookie_name: None, via_provider: true, sibling: None, html_attrs: Some(attrs), plain_api: 0 });
                     }
                 }
             }
@@ -253,21 +276,27 @@ pub fn run(tier: Tier) -> i32 {
             for parent in [None, Some(0), Some(1), Some(2)] {
                 for initial in [None, Some(0), Some(1), Some(2)] {
                     for scn in [None, Some(DEFAULT_COOKIE), Some("custom")] {
-                        envs.push(Env { cookie_header: ch.clone(), enable_cookie: true, cookie_name: None, accept: *a, parent, initial, sub: true, sub_cookie_name: scn, via_provider: false, sibling: None, html_attrs: None });
+                        envs.push(Env { cookie_header: ch.clone(), enable_cookie: true, cookie_name: None, accept: *a, parent, initial, sub: true, sub_cookie_name: scn, via_provider: false, sibling: None, html_attrs: None, plain_api: 0 });
                         // the same through the provider component, alone and after a sibling provider in another locale
                         for sibling in [None, Some(1), Some(2)] {
                             if sibling.is_some() && sibling == parent {
                                 continue;
                             }
-                            envs.push(Env { cookie_header: ch.clone(), enable_cookie: true, cookie_name: None, accept: *a, parent, initial, sub: true, sub_cookie_name: scn, via_provider: true, sibling, html_attrs: None });
+                            envs.push(Env { cookie_header: ch.clone(), enable_cookie: true, cookie_name: None, accept: *a, parent, initial, sub: true, sub_cookie_name: scn, via_provider: true, sibling, html_attrs: None, plain_api: 0 });
                         }
                     }
                 }
             }
         }
     }
-    if tier == Tier::Quick {
-        // the full product is small enough for the quick tier as well
+    // the entry points without options (no request at hand: nothing to read a cookie or a header from)
+    for api in [1u8, 2] {
+        envs.push(Env { cookie_header: None, enable_cookie: true, cookie_name: None, accept: None, parent: None, initial: None, sub: false, sub_cookie_name: None, via_provider: false, sibling: None, html_attrs: None, plain_api: api });
+        for parent in [None, Some(0), Some(1), Some(2)] {
+            for initial in [None, Some(0), Some(1), Some(2)] {
+                envs.push(Env { cookie_header: None, enable_cookie: true, cookie_name: None, accept: None, parent, initial, sub: true, sub_cookie_name: None, via_provider: false, sibling: None, html_attrs: None, plain_api: api });
+            }
+        }
     }
     let classes = std::sync::Mutex::new(std::collections::BTreeMap::<String, u64>::new());
     par_for_chunked(envs.len(), 64, |_, i| {
@@ -296,7 +325,7 @@ pub fn run(tier: Tier) -> i32 {
     rep.sample(json!({"env": format!("{:?}", envs[envs.len() / 3])}));
     rep.sample(json!({"env": format!("{:?}", envs[envs.len() - 5])}));
     let mut cov = serde_json::Map::new();
-    cov.insert("rule".into(), json!(format!("{} cookie headers (absent, empty, each of 9 values under the default and a custom name alone and between other cookies, both names, unrelated) x {} Accept-Language values x {{main context: enable_cookie x cookie name, created directly or through the generated <I18nContextProvider> component under every value of its set_dir_attr_on_html / set_lang_attr_on_html props}} + {{sub-context: parent none/each locale x initial none/each x cookie name none/default/custom x created directly / through the generated <I18nSubContextProvider> component, alone or after a sibling provider holding another locale (a sibling is not the parent)}}; each environment builds real contexts (init_i18n_context_with_options, init_i18n_subcontext_with_options, resolve_locale_with_options) under ssr with injected header getters and effects run to quiescence; the harness is built twice, with and without the library's `cookie` feature (without it every cookie option must do nothing); oracle: cookie (if enabled and holding a configured name) > Accept-Language best match > default; sub-context: cookie > initial > parent > same resolution; distinct_nontrivial = distinct (deciding rule, result) classes", cookie_headers.len(), accepts.len())));
+    cov.insert("rule".into(), json!(format!("{} cookie headers (absent, empty, each of 9 values under the default and a custom name alone and between other cookies, both names, unrelated) x {} Accept-Language values x {{main context: enable_cookie x cookie name, created directly or through the generated <I18nContextProvider> component under every value of its set_dir_attr_on_html / set_lang_attr_on_html props}} + {{sub-context: parent none/each locale x initial none/each x cookie name none/default/custom x created directly / through the generated <I18nSubContextProvider> component, alone or after a sibling provider holding another locale (a sibling is not the parent)}}; plus the entry points that take no options (init_i18n_context, provide_i18n_context, init_i18n_subcontext, provide_i18n_subcontext) under parent x initial; each environment builds real contexts (init_i18n_context_with_options, init_i18n_subcontext_with_options, resolve_locale_with_options) under ssr with injected header getters and effects run to quiescence; the harness is built twice, with and without the library's `cookie` feature (without it every cookie option must do nothing); oracle: cookie (if enabled and holding a configured name) > Accept-Language best match > default; sub-context: cookie > initial > parent > same resolution; distinct_nontrivial = distinct (deciding rule, result) classes", cookie_headers.len(), accepts.len())));
     cov.insert("exhaustive".into(), json!(true));
     cov.insert("outcome_classes".into(), json!(*classes.lock().unwrap()));
     rep.finish(cov, &["client branch (navigator.languages, <html lang>) needs a browser: not executed", "Accept-Language is split by leptos-use on ',' without trimming: entries are fed without spaces", "a cookie value with surrounding whitespace may be honoured or ignored (from_str trims)"])
